@@ -464,12 +464,12 @@ class Judge:
         all_facets = deep_facet_kinds(t)
         if t.variety == 'atomic':
             tk = t.builtin_ancestor().name          # the canonical-form axioms do not depend on the user facets
-        if cv == '~' or cv.startswith('!'):
+        if cv == '~':
             F.count('canon:null-for-valid:' + (t.builtin_ancestor().name if t.variety == 'atomic' else t.variety))
-            if cv.startswith('!'):
-                self.violation('C09:axiom:canon-throws:%s:%s' % (tk, cls), 'getCanonicalRepresentation threw for a valid literal', c, idx, expected='a string', observed=cv)
+            if kv.get('cvx'):
+                self.violation('C09:axiom:canon-throws:%s:%s' % (tk, cls), 'getCanonicalRepresentation threw for a valid literal', c, idx, expected='a string', observed=kv.get('cvx'))
         else:
-            canon = core.unesc(cv)
+            canon = core.unesc(cv[1:])
             grey = False
             if t.variety == 'atomic' and t.prim in D.DT_RE:
                 if mv.v == SKIP and mv.why.startswith('datetime:'):
@@ -535,7 +535,7 @@ class Judge:
                 self.violation('C09:xsvalue-canon-invalid:%s:%s' % (tk, cls), 'XSValue canonical form does not validate through XSValue', c, idx, expected='valid', observed=xc)
             if kv.get('can2') != xc:
                 self.violation('C09:xsvalue-canon-not-idempotent:%s:%s' % (tk, cls), 'XSValue canon(canon(x)) != canon(x)', c, idx, expected=xc, observed=kv.get('can2'))
-            if cv not in ('~',) and not cv.startswith('!') and xc != cv:
+            if cv not in ('~', 'skipped') and xc != cv:
                 self.violation('C09:diff:canon:%s:%s' % (tk, cls), 'XSValue and DatatypeValidator give different canonical forms', c, idx, expected='identical', observed={'validator': cv, 'xsvalue': xc})
         elif cst not in ('2',):           # 2 = st_NoCanRep (documented: no canonical form for this type)
             self.violation('C09:xsvalue-canon-null:%s:%s:st%s' % (tk, cls, cst), 'XSValue gives no canonical form for a literal it validates (status is not st_NoCanRep)', c, idx, expected='a string or st_NoCanRep', observed=cst)
@@ -692,8 +692,8 @@ class Judge:
                 if kv.get('val') != '2':
                     self.violation('C09:psvi-validity:%s' % tk, 'no error reported but PSVI validity is not VALID', c, idx, expected='2', observed=kv.get('val'))
                 nv = kv.get('norm', '~')
-                if nv != '~' and core.unesc(nv) != norm:
-                    self.violation('C09:psvi-normalized-value:%s:%s' % (tk, D.shape(raw)), 'schema normalized value differs from the white-space-processed literal', c, idx, expected=norm, observed=core.unesc(nv))
+                if nv != '~' and core.unesc(nv[1:]) != norm:
+                    self.violation('C09:psvi-normalized-value:%s:%s' % (tk, D.shape(raw)), 'schema normalized value differs from the white-space-processed literal', c, idx, expected=norm, observed=core.unesc(nv[1:]))
                 F.count('route3:psvi')
 
     # ---- restriction / list / union relations (reference-free) -----------------------------------------------------------
